@@ -29,15 +29,18 @@ VARIABLE recno
 
 RECURSIVE VE(_, _)
 SeqVE(s, t) == Len(s) = Len(t) /\ \A n \in 1..Len(s) : VE(s[n], t[n])
+\* object identities are recorded for globals and defaults, not for trace() arguments
+IdEq(a, b) == /\ ("id" \in DOMAIN a) = ("id" \in DOMAIN b)
+              /\ ("id" \in DOMAIN a) => a.id = b.id
 VE(a, b) ==
   /\ a.t = b.t
   /\ CASE a.t \in {"none", "nil", "cycle", "deep"} -> TRUE
        [] a.t \in {"bool", "int", "str", "bytes"} -> a.v = b.v
        [] a.t = "big"   -> a.neg = b.neg /\ a.m = b.m
        [] a.t = "float" -> a.s = b.s /\ a.e = b.e /\ a.m = b.m
-       [] a.t \in {"list", "set"} -> a.id = b.id /\ SeqVE(a.v, b.v)
+       [] a.t \in {"list", "set"} -> IdEq(a, b) /\ SeqVE(a.v, b.v)
        [] a.t = "tuple" -> SeqVE(a.v, b.v)
-       [] a.t = "dict"  -> /\ a.id = b.id /\ Len(a.v) = Len(b.v)
+       [] a.t = "dict"  -> /\ IdEq(a, b) /\ Len(a.v) = Len(b.v)
                            /\ \A n \in 1..Len(a.v) : VE(a.v[n][1], b.v[n][1]) /\ VE(a.v[n][2], b.v[n][2])
        [] a.t = "struct" -> /\ Len(a.v) = Len(b.v)
                             /\ \A n \in 1..Len(a.v) : a.v[n][1] = b.v[n][1] /\ VE(a.v[n][2], b.v[n][2])
